@@ -250,7 +250,8 @@ def declare_constraint(b, c):
     if "include_last" in c:
         kw["include_last"] = c["include_last"]
     if c.get("scale") is not None:
-        kw["scale"] = c["scale"]
+        import casadi as ca
+        kw["scale"] = ca.DM(c["scale"]) if isinstance(c["scale"], list) else c["scale"]
     if c.get("cid") is not None:
         kw["meta"] = meta_for(c["cid"])
     b.stage.subject_to(constraint_expr(b, c), **kw)
